@@ -10,7 +10,7 @@ RULE = (
     "histories of operations on ONE cutplace.Cid object; operations (each over three small data sets that share key and "
     "value cells): read completely (yield mode + close; raise mode through cutplace.rows), read and abandon after k = 0, 1, "
     "2 items (generator and reader closed, or everything just dropped), read without closing, reader closed without "
-    "iterating, validate with limit 0, validate, write rows without close, write and close, CutplaceApp.validate (the command line's per-file step) - 45 operations - on CIDs with "
+    "iterating, validate with limit 0, validate, write rows without close, write and close, CutplaceApp.validate (the command line's per-file step) - 51 operations - on CIDs with "
     "IsUnique, DistinctCount, or both. Oracle: history + model where the model is the implementation with fresh state: the "
     "outcome of the last operation of every history (items, rejections with row numbers, end-of-data result, written text, "
     "counters) must equal the outcome of the same operation on a freshly loaded CID. Quick: all histories of length <= 2 "
@@ -49,14 +49,34 @@ def operations():
         ops.append(("write", d))
         ops.append(("write-close", d))
         ops.append(("app-validate", d))
+        # an abandoned iteration whose generator stays referenced, and a read during which all such generators are dropped
+        ops.append(("abandon-kept", d, 1))
+        ops.append(("read-dropping-kept", d))
     return ops
+
+
+class NamedText(io.StringIO):
+    """A text stream with a name, so that every data set has its own input name in locations."""
+
+    def __init__(self, text, name):
+        super().__init__(text, newline="")
+        self.name = name
+
+
+def source_for(d, text):
+    return NamedText(text, "dataset%d.csv" % d)
 
 
 def err(e):
     if e is None:
         return None
     line = e.location.line if getattr(e, "location", None) is not None else None
-    return [type(e).__name__, line, str(e.message) if hasattr(e, "message") else str(e)]
+    see = getattr(e, "see_also_location", None)
+    return [type(e).__name__, line, str(e.message) if hasattr(e, "message") else str(e), str(e.location) if e.location is not None else None,
+            str(see) if see is not None else None]
+
+
+KEPT = []  # generators of abandoned iterations that are still referenced (cleared at the start of every history)
 
 
 def perform(cid, op):
@@ -70,7 +90,7 @@ def perform(cid, op):
     out = {"op": list(op)}
     try:
         if kind in ("read", "read-noclose"):
-            reader = validio.Reader(cid, io.StringIO(text, newline=""), on_error="yield")
+            reader = validio.Reader(cid, source_for(d, text), on_error="yield")
             items = []
             for item in reader.rows():
                 items.append(err(item) if isinstance(item, Exception) else item)
@@ -85,7 +105,7 @@ def perform(cid, op):
         elif kind == "read-raise":
             items = []
             try:
-                for item in cutplace.rows(cid, io.StringIO(text, newline="")):
+                for item in cutplace.rows(cid, source_for(d, text)):
                     items.append(item)
                 out["end"] = None
             except errors.CutplaceError as e:
@@ -93,7 +113,7 @@ def perform(cid, op):
             out["items"] = items
         elif kind in ("abandon-closed", "abandon-dropped"):
             k = op[2]
-            reader = validio.Reader(cid, io.StringIO(text, newline=""), on_error="yield")
+            reader = validio.Reader(cid, source_for(d, text), on_error="yield")
             generator = reader.rows()
             items = []
             for _ in range(k):
@@ -112,8 +132,33 @@ def perform(cid, op):
                     out["end"] = err(e)
             del generator
             del reader
+        elif kind == "abandon-kept":
+            reader = validio.Reader(cid, source_for(d, text), on_error="yield")
+            generator = reader.rows()
+            items = []
+            for _ in range(op[2]):
+                try:
+                    item = next(generator)
+                except StopIteration:
+                    break
+                items.append(err(item) if isinstance(item, Exception) else item)
+            out["items"] = items
+            KEPT.append((generator, reader))
+        elif kind == "read-dropping-kept":
+            reader = validio.Reader(cid, source_for(d, text), on_error="yield")
+            items = []
+            for item in reader.rows():
+                items.append(err(item) if isinstance(item, Exception) else item)
+                del KEPT[:]  # abandoned iterations of earlier runs are finalised while this run is under way
+            out["items"] = items
+            out["counters"] = [reader.accepted_rows_count, reader.rejected_rows_count]
+            try:
+                reader.close()
+                out["end"] = None
+            except errors.CutplaceError as e:
+                out["end"] = err(e)
         elif kind == "close-without-rows":
-            reader = validio.Reader(cid, io.StringIO(text, newline=""))
+            reader = validio.Reader(cid, source_for(d, text))
             try:
                 reader.close()
                 out["end"] = None
@@ -121,7 +166,7 @@ def perform(cid, op):
                 out["end"] = err(e)
         elif kind in ("validate-limit0", "validate"):
             try:
-                cutplace.validate(cid, io.StringIO(text, newline=""), validate_until=0 if kind == "validate-limit0" else None)
+                cutplace.validate(cid, source_for(d, text), validate_until=0 if kind == "validate-limit0" else None)
                 out["end"] = None
             except errors.CutplaceError as e:
                 out["end"] = err(e)
@@ -173,7 +218,12 @@ _fresh_cache = {}
 def fresh_outcome(cid_kind, op):
     key = (cid_kind, op)
     if key not in _fresh_cache:
+        saved = list(KEPT)
+        del KEPT[:]
         _fresh_cache[key] = perform(new_cid(cid_kind), op)
+        if op[0] == "abandon-kept":
+            KEPT.pop()  # the fresh reference run must not leave anything behind
+        KEPT.extend(saved)
     return _fresh_cache[key]
 
 
@@ -185,6 +235,7 @@ def check_history(ctx, cid_kind, history, compare_all=False):
     case = {"cid": cid_kind, "history": [list(op) for op in history]}
     ctx.case(case, len(history) >= 2)
     cid = new_cid(cid_kind)
+    del KEPT[:]
     for index, op in enumerate(history):
         outcome = perform(cid, op)
         ctx.count("operations")
@@ -205,7 +256,7 @@ def family(kind):
         return "write"
     if kind in ("close-without-rows", "validate-limit0"):
         return "close-without-iteration"
-    if kind == "abandon-closed":
+    if kind in ("abandon-closed", "abandon-kept"):
         return "abandoned-read"
     if kind == "nothing":
         return "nothing"
@@ -226,7 +277,7 @@ def run(ctx):
                 if ctx.mine(index):
                     check_history(ctx, cid_kind, history)
     ctx.exhaustive = True
-    ctx.note("exhaustive part: all histories of length <= %d over 45 operations x 4 CIDs; longer histories are sampled" % max_len)
+    ctx.note("exhaustive part: all histories of length <= %d over 51 operations x 4 CIDs; longer histories are sampled" % max_len)
     n = ctx.pick(2500, 20000)
     lo, hi = ctx.pick((3, 4), (5, 8))
     for i in range(n):
